@@ -55,6 +55,9 @@ pub fn use2<'a>(start: Span, input: Span<'a>) -> PResult<'a, Item> {
                     "Expected string.",
                     terminated(quoted_sass_string, ignore_comments),
                 ),
+                // The namespace comes before the configuration, but
+                // the opposite order has been accepted here as well.
+                opt(preceded(terminated(tag("as"), ignore_comments), as_arg)),
                 opt(preceded(
                     terminated(tag("with"), ignore_comments),
                     with_arg,
@@ -64,10 +67,10 @@ pub fn use2<'a>(start: Span, input: Span<'a>) -> PResult<'a, Item> {
             ),
             semi_or_end,
         ),
-        |(s, w, n, end)| {
+        |(s, n, w, n2, end)| {
             Item::Use(
                 s,
-                n.unwrap_or(UseAs::KeepName),
+                n.or(n2).unwrap_or(UseAs::KeepName),
                 w.unwrap_or_default(),
                 start.up_to(&end).to_owned(),
             )
